@@ -3,7 +3,7 @@
 # Confirms in a scratch worktree of /repo HEAD: with the patch the suite stays green (550) and the demo fails; without it the demo passes.
 set -u
 D=$1; L=$2
-WT=/tmp/wt/confirm
+WT=${WT:-/tmp/wt/confirm}
 if [ ! -d $WT ]; then git -C /repo worktree add -q --detach $WT HEAD; fi
 cd $WT && git checkout -q --detach $(git -C /repo rev-parse HEAD) && git checkout -q -- . && git clean -fdq -e target
 R=$D/confirm.txt; : > $R
